@@ -15,7 +15,7 @@ use stun_types::TransportType;
 pub fn c14(tier: &str, seed: u64) -> Report {
     let mut rep = Report::new("c14", "random frame lists (lengths 0, 1, 2, 3, 255, 256, 65533..65535 and random) x random chunkings (every split pattern for short streams) x random interleavings of push and pull: pulled sequence vs frames sent; a pull returns nothing exactly when no complete frame is buffered.");
     let mut rng = Rng::new(seed);
-    for i in 0..crate::modes::n_cases(tier, 400, 20000) {
+    for i in 0..crate::modes::n_cases(tier, 3000, 40000) {
         let nf = rng.range(1, 5) as usize;
         let frames: Vec<Vec<u8>> = (0..nf).map(|_| { let l = match rng.below(8) { 0 => 0, 1 => 1, 2 => 2, 3 => *rng.pick(&[65533u64, 65534, 65535, 255, 256, 257]), _ => rng.below(40) } as usize; rng.bytes(l) }).collect();
         let mut stream = vec![];
@@ -160,8 +160,9 @@ pub fn run_history(h: &[AOp], transport: TransportType, base: Instant, errs: &mu
     let mut m = MAgent { transport, local: local(), out: BTreeMap::new(), peers: BTreeSet::new(), remote_key: None };
     let mut now: u64 = 0;
     let mut trace = vec![];
-    let at = |ms: u64| base + Duration::from_millis(ms);
-    let rel = |i: Instant| i.duration_since(base).as_millis() as u64;
+    // model time is in MICROseconds (sub-millisecond poll lateness must not disturb the schedule)
+    let at = |us: u64| base + Duration::from_micros(us);
+    let rel = |i: Instant| i.duration_since(base).as_micros() as u64;
     let mut last_wait: Option<u64> = None;
     macro_rules! bad { ($k:expr, $($a:tt)*) => { if errs.len() < 5 { errs.push(($k.to_string(), format!("step {}: {}", trace.len(), format!($($a)*)))); } } }
     for op in h {
@@ -178,7 +179,7 @@ pub fn run_history(h: &[AOp], transport: TransportType, base: Instant, errs: &mu
                         if tx.0 != bytes || tx.1 != transport || tx.2 != local() || tx.3 != addr(*to) { bad!("C18:first-transmit", "send returned a transmit that is not the unmodified message from local to the destination"); }
                         trace.push(format!("send({:#x}) -> transmit {} bytes to {}", tid, tx.0.len(), tx.3));
                         if *class == 0 {
-                            let (sched, lt) = if transport == TransportType::Udp { (vec![500, 1000, 2000, 4000, 8000, 16000], 8000) } else { (vec![], 39500) };
+                            let (sched, lt) = if transport == TransportType::Udp { (vec![500_000, 1_000_000, 2_000_000, 4_000_000, 8_000_000, 16_000_000], 8_000_000) } else { (vec![], 39_500_000) };
                             m.out.insert(tid, MReq { bytes, to: addr(*to), sched, last_timeout: lt, ti: 0, last_send: Some(now), send_c: false, recv_c: false, had_creds: had });
                         }
                     }
@@ -191,8 +192,8 @@ pub fn run_history(h: &[AOp], transport: TransportType, base: Instant, errs: &mu
                     PollWhen::Now => now,
                     PollWhen::Early => match min_due { Some(d) if d > now + 1 => now + (d - now) / 2, _ => now },
                     PollWhen::Exact => match last_wait.or(min_due) { Some(d) if d >= now => d, _ => now },
-                    PollWhen::Late(x) => match min_due { Some(d) if d >= now => d + x, _ => now + x },
-                    PollWhen::Far => now + 50_000,
+                    PollWhen::Late(x) => { let late = x * 1000 + (trace.len() as u64 * 137) % 1000; match min_due { Some(d) if d >= now => d + late, _ => now + late } }
+                    PollWhen::Far => now + 50_000_000,
                 };
                 let ret = agent.poll(at(now));
                 let verdicts: Vec<(u128, Verdict)> = m.out.iter().map(|(k, r)| (*k, r.verdict(now))).collect();
@@ -269,8 +270,8 @@ pub fn run_history(h: &[AOp], transport: TransportType, base: Instant, errs: &mu
                 if let Some(mut r) = agent.mut_request_transaction(tid.into()) {
                     r.configure_timeout(Duration::from_millis(*rto), *n, Duration::from_millis(*last));
                     if let Some(q) = m.out.get_mut(&tid) {
-                        if transport == TransportType::Udp { q.sched = (0..*n).map(|i| rto * (1u64 << i)).collect(); q.last_timeout = *last; }
-                        else { q.sched = vec![]; q.last_timeout = last + (0..*n).map(|i| rto * (1u64 << i)).sum::<u64>(); }
+                        if transport == TransportType::Udp { q.sched = (0..*n).map(|i| rto * 1000 * (1u64 << i)).collect(); q.last_timeout = *last * 1000; }
+                        else { q.sched = vec![]; q.last_timeout = last * 1000 + (0..*n).map(|i| rto * 1000 * (1u64 << i)).sum::<u64>(); }
                     }
                 }
                 trace.push(format!("configure({:#x}, {}, {}, {})", tid, rto, n, last));
@@ -296,7 +297,7 @@ pub fn run_history(h: &[AOp], transport: TransportType, base: Instant, errs: &mu
 fn agent_mode(name: &str, rule: &str, tier: &str, seed: u64, prefixes: &[&str], shift_check: bool) -> Report {
     let mut rep = Report::new(name, rule);
     let mut rng = Rng::new(seed);
-    let n = crate::modes::n_cases(tier, 1200, 40000);
+    let n = crate::modes::n_cases(tier, 6000, 100000);
     let base = Instant::now();
     for i in 0..n {
         let len = if i % 50 == 49 { 200 } else { rng.range(3, 14) as usize };
